@@ -5,6 +5,19 @@ const CMDS: [&str; 18] = ["@cwd", "@src", "@cd", "@exec", "@unexec", "@option", 
     "@ignore", "@name", "@pkgdep", "@blddep", "@pkgcfl", "@pkgdir", "@dirrm", "@display"];
 
 fn arg(rng: &mut Rng) -> Vec<u8> {
+    // rare values: a Unicode blank (valid UTF-8, not an ASCII blank) right where the argument starts
+    if rng.chance(1, 15) {
+        let mut a = String::new();
+        a.push(*rng.pick(&UNI_BLANKS));
+        a.push_str(rng.pick_str(&["", "x", "preserve", "/usr/pkg", " y"]));
+        return a.into_bytes();
+    }
+    // scale: an argument longer than a 16-bit length
+    if rng.chance(1, 300) {
+        let mut a = vec![b'A'; threshold(rng, 70000)];
+        if rng.chance(1, 2) { a.push(0xe9); }
+        return a;
+    }
     match rng.below(8) {
         0 => b"/usr/pkg".to_vec(),
         1 => "d\u{e9}j\u{e0} vu".as_bytes().to_vec(),
@@ -22,7 +35,8 @@ pub fn line(rng: &mut Rng) -> Vec<u8> {
     match rng.below(12) {
         0..=3 => {
             // a file name of any length >= 1 over arbitrary bytes
-            if rng.chance(1, 3) { l.push(*rng.pick(b"abcxyz0+")); }
+            if rng.chance(1, 200) { l = vec![b'f'; threshold(rng, 70000)]; }
+            else if rng.chance(1, 3) { l.push(*rng.pick(b"abcxyz0+")); }
             else { for _ in 0..rng.range(1, 20) { let c = rng.range(1, 255) as u8; if c != b'\n' { l.push(c); } } }
             if l.iter().all(|c| (*c as char).is_whitespace()) { l.push(b'f'); }
         }
@@ -62,7 +76,8 @@ pub fn good_line(rng: &mut Rng) -> Vec<u8> {
 
 pub fn plist(rng: &mut Rng) -> Vec<u8> {
     let good = rng.chance(3, 4);
-    let n = if rng.chance(1, 10) { rng.range(20, 60) } else { rng.range(0, 12) };
+    // scale: more lines than a batch / a 64-entry block (the 65th, 1025th, ... line matters)
+    let n = if rng.chance(1, 60) { *rng.pick(&[64usize, 65, 66, 129, 130, 1024, 1025, 1026, 2051]) } else if rng.chance(1, 10) { rng.range(20, 60) } else { rng.range(0, 12) };
     let mut t: Vec<u8> = vec![];
     let crlf = rng.chance(1, 10);
     for _ in 0..n {
